@@ -220,6 +220,27 @@ def check_pair(mod, label, tabs, N, rng):
     return bad
 
 
+def check_large(mod, label, rng):
+    """sizes of a few hundred samples, odd and even (256, 257, 300, 301): the four transforms against the centred-DFT operator"""
+    from harness import prop_interp as PI_
+    bad = []
+    for N in (256, 257, 300, 301):
+        F = PI_.centred_dft(N)
+        x = rng.standard_normal((N, N)) + 1j * rng.standard_normal((N, N))
+        xr = rng.standard_normal((2, N, N))
+        d = 0.5
+        df = 1.0 / (N * d)
+        A, Ai = F * d, np.conj(F) / N * (N * df)
+        for fn, arr, want in (("ft2", x, A.dot(x).dot(A.T)), ("ift2", x, Ai.dot(x).dot(Ai.T)), ("ft2", xr, np.matmul(np.matmul(A, xr), A.T)),
+                              ("ift2", xr, np.matmul(np.matmul(Ai, xr), Ai.T)), ("ft", x[:3], x[:3].dot(A.T)), ("ift", x[:3], x[:3].dot(Ai.T))):
+            got = np.asarray(getattr(mod, fn)(arr.copy(), d if fn in ("ft", "ft2") else df))
+            if got.shape != want.shape or not np.allclose(got, want, rtol=0, atol=1e-10 * N * np.abs(want).max()):
+                bad.append(("%s.%s:centred-scaled-dft:large-%s-N" % (label, fn, "odd" if N % 2 else "even"), dict(N=N, real_input=bool(np.isrealobj(arr)), batch=arr.ndim == 3,
+                                                                                                      err=float(np.abs(got - want).max() / np.abs(want).max()) if got.shape == want.shape else None)))
+                return bad
+    return bad
+
+
 def check_real(mod, label, N, rng):
     """the real-input variants: inverse pair on the half spectrum.  Failures are classified by their exact signature, so
     that only the recorded defect (and not some other breakage of the same call site) can match a known finding."""
@@ -377,6 +398,10 @@ def run(run):
             run.traces += 1
             for key, detail in bad:
                 run.violation(key, detail, dict(kind="pair", label=label, N=N))
+    with np.errstate(all="ignore"):
+        for key, detail in check_large(FT, "fouriertransform", rng):
+            run.violation(key, detail, dict(kind="largeN"))
+    run.traces += 1
     c = tabs[("ft", min(5, maxlen))]
     run.sample(dict(kind="table", fn="ft", N=c["N"], E=c["E"]))
     run.assumptions += [
@@ -395,6 +420,10 @@ def replay(run, case):
         o = origin(vars(ao)[n])
         if o != "aotools.fouriertransform":
             run.violation("package-export:%s-bound-to:%s" % (n, o), dict(name=n, origin=o), case)
+        return
+    if case.get("kind") == "largeN":
+        for key, detail in check_large(FT, "fouriertransform", np.random.default_rng(run.seed)):
+            run.violation(key, detail, case)
         return
     r = core.run_tlc("Fourier", "Fourier_quick.cfg", coverage=False, timeout=600)
     tabs = {(c["fn"], c["N"]): c for c in r.printed}
